@@ -6,6 +6,9 @@ Driver for C07: histories over 3 raw_vector registers and 2 buffer registers sha
 ```
 reset                                  start of a history: fresh registers
 dump                                   all registers (contents, sizes) and the ledger
+failat k                               fault injection: the k-th allocation of the NEXT line throws std::bad_alloc
+failsize n | failsize off              every allocation request for more than n elements throws (until changed / reset)
+                                       a throwing operation prints `exc:bad_alloc`, all registers, the ledger and `sg`
 ctor r adefault|acount n x|arange KIND LIST|ail LIST, bactor b n      the overloads taking the allocator explicitly
 end                                    end of a history: all destructors run, ledger reported
 ctor r default | count n x | range KIND LIST | il LIST | move s | buf b        KIND = fwd|ptr|fl|bidi|inp
@@ -59,6 +62,8 @@ inductive Cmd where
   | reset
   | endHist
   | dump
+  | failAt (k : Nat)
+  | failSize (n : Option Nat)
   | op (o : Op)
   | cmp (r s : Nat)
   | obs (r : Nat)
@@ -71,6 +76,8 @@ def parseCmd (toks : List String) : Option Cmd :=
   | ["reset"] => some .reset
   | ["end"] => some .endHist
   | ["dump"] => some .dump
+  | ["failat", k] => do let k ← k.toNat?; if k = 0 then none else pure (.failAt k)
+  | ["failsize", n] => if n = "off" then some (.failSize none) else do let n ← n.toNat?; pure (.failSize (some n))
   | ["ctor", r, "adefault"] => do let r ← parseReg NV r; pure (.op (.ctor r .dflt))
   | ["ctor", r, "acount", n, x] => do let r ← parseReg NV r; let n ← n.toNat?; let x ← x.toInt?; pure (.op (.ctor r (.count n x)))
   | ["ctor", r, "arange", f, l] => do let r ← parseReg NV r; let f ← parseFwd f; let l ← parseIntList l; pure (.op (.ctor r (.range l f)))
@@ -171,15 +178,49 @@ def geo (old new : RV) : VOp → String
   | .shrink => "-"
   | _ => b01 (new.cap == old.cap || decide (2 * old.cap ≤ new.cap))
 
+def dumpLine (st : St) : String :=
+  " ".intercalate ((List.range NV).map (fun r => showVec st.heap r (st.vec r)) ++
+    (List.range NB).map (fun k => showBuf st.heap k (st.buf k))) ++ s!" live={st.heap.liveCount} alloc=ok"
+
+def armed (i : Inj) : Bool := i.failAt.isSome || i.failSize.isSome
+
+/-- one operation under the failure schedule `i` (not armed: the plain `step`) -/
+def execOp (i : Inj) (st : St) (o : Op) : M (Out St × Option Nat) :=
+  if armed i then stepF i g st o else do let x ← step g st o; pure (.done x.1, x.2)
+
+/-- registers a throwing operation may leave changed: the object under construction, the target of a single-pass range insert -/
+def excluded : Op → List Nat × List Nat
+  | .ctor r _ => ([r], [])
+  | .v r (.insertRange _ _ false) => ([r], [])
+  | .bctor b _ => ([], [b])
+  | .bread b _ _ => ([], [b])
+  | .breadOpt b _ _ => ([], [b])
+  | _ => ([], [])
+
+def sameRV (a b : RV) : Bool := a.base == b.base && a.last == b.last && a.cap == b.cap
+def sameBuf (a b : Buf) : Bool := a.base == b.base && a.readEnd == b.readEnd && a.writeEnd == b.writeEnd && a.cap == b.cap
+
+/-- after `std::bad_alloc`: all registers, the ledger, and `sg` = every register the exception may not change (strong guarantee:
+all but `excluded`) has the same pointers as before.  The specification state adopts the model's contents. -/
+def threwLine (st st' : St) (sst : Spec.SSt) (o : Op) : Spec.SSt × String :=
+  let (ev, eb) := excluded o
+  let sg := (List.range NV).all (fun r => ev.contains r || sameRV (st.vec r) (st'.vec r)) &&
+            (List.range NB).all (fun k => eb.contains k || sameBuf (st.buf k) (st'.buf k))
+  let vecs : Nat → List Int := fun r => match toList st'.heap (st'.vec r) with | .ok l => l | .error _ => sst.vec r
+  let bufs : Nat → Spec.SBuf := fun k => match Buf.readArea st'.heap (st'.buf k) with
+    | .ok l => (l, (st'.buf k).writeSize) | .error _ => sst.buf k
+  (⟨vecs, bufs⟩, "exc:bad_alloc " ++ dumpLine st' ++ " sg=" ++ b01 sg ++ " std=ok")
+
 /-- `insert(pos, begin()+a, begin()+b)` outside the specification (the range does not lie in front of `pos`): the iterators are
 still valid, the model says what the code does (it depends on the capacity); the specification state adopts the result -/
-def runNoSpec (st : St) (sst : Spec.SSt) (r pos a b : Nat) : St × Spec.SSt × String :=
+def runNoSpec (i : Inj) (st : St) (sst : Spec.SSt) (r pos a b : Nat) : St × Spec.SSt × String :=
   let l := sst.vec r
   if ¬ (a ≤ b ∧ b ≤ l.length ∧ pos ≤ l.length) then (st, sst, "invalid") else
   let vo := VOp.insertSelf pos a b
-  match step g st (.v r vo) with
+  match execOp i st (.v r vo) with
   | .error _ => (st, sst, "invalid")      -- source and destination of the uninitialized_copy overlap
-  | .ok (st', ret) =>
+  | .ok (.threw st', _) => let (sst', line) := threwLine st st' sst (.v r vo); (st', sst', line)
+  | .ok (.done st', ret) =>
     match toList st'.heap (st'.vec r) with
     | .error f => (st, sst, "fault:" ++ f.name)
     | .ok l' =>
@@ -187,16 +228,17 @@ def runNoSpec (st : St) (sst : Spec.SSt) (r pos a b : Nat) : St × Spec.SSt × S
         showRet ret ++ " " ++ showVec st'.heap r (st'.vec r) ++ " reok=" ++ reok (st.vec r) (st'.vec r) vo ++
           " cpok=" ++ cpok (st.vec r) (st'.vec r) vo ++ " geo=" ++ geo (st.vec r) (st'.vec r) vo ++ " " ++ tail st'.heap "na")
 
-def runOp (st : St) (sst : Spec.SSt) (o : Op) : St × Spec.SSt × String :=
+def runOp (i : Inj) (st : St) (sst : Spec.SSt) (o : Op) : St × Spec.SSt × String :=
   match Spec.sstep sst o with
   | none =>
     match o with
-    | .v r (.insertSelf pos a b) => runNoSpec st sst r pos a b
+    | .v r (.insertSelf pos a b) => runNoSpec i st sst r pos a b
     | _ => (st, sst, "invalid")
   | some (sst', sret) =>
-    match step g st o with
+    match execOp i st o with
     | .error f => (st, sst, "fault:" ++ f.name)
-    | .ok (st', ret) =>
+    | .ok (.threw st', _) => let (sst2, line) := threwLine st st' sst o; (st', sst2, line)
+    | .ok (.done st', ret) =>
       let (vs, bs) := touched o
       let parts := vs.map (fun r => showVec st'.heap r (st'.vec r)) ++ bs.map (fun k => showBuf st'.heap k (st'.buf k))
       let re := match o with
@@ -255,24 +297,38 @@ def readCharsLine (count : Nat) (xs : List Int) : String :=
         (if Spec.sreadChars xs count == some l then "" else " SPEC-MISMATCH")
     | _, _ => "fault"
 
-def handle (s : St × Spec.SSt) (toks : List String) : (St × Spec.SSt) × String :=
-  match parseCmd toks with
-  | none => (s, "bad-op")
-  | some .reset => ((St.init, Spec.SSt.init), "reset")
-  | some .endHist =>
-    match finish s.1 NV NB with
-    | .ok h => ((St.init, Spec.SSt.init), s!"end live={h.liveCount} alloc=ok")
-    | .error f => ((St.init, Spec.SSt.init), "end fault:" ++ f.name)
-  | some (.op o) => let (st', sst', line) := runOp s.1 s.2 o; ((st', sst'), line)
-  | some (.cmp r t) => (s, cmpLine s.1 r t)
-  | some .dump =>
-    (s, " ".intercalate ((List.range NV).map (fun r => showVec s.1.heap r (s.1.vec r)) ++
-          (List.range NB).map (fun k => showBuf s.1.heap k (s.1.buf k))) ++ s!" live={s.1.heap.liveCount} alloc=ok")
-  | some (.obs r) => (s, obsLine s.1 r)
-  | some (.bobs b) => (s, bobsLine s.1 b)
-  | some (.dynArr n xs) => (s, dynArrLine n xs)
-  | some (.readChars n xs) => (s, readCharsLine n xs)
+def dynArrLineF (i : Inj) (n : Nat) (xs : List Int) : String :=
+  if xs.length > n then "invalid"
+  else if armed i && (i.grant n).isNone then "exc:bad_alloc live=0 alloc=ok"
+  else dynArrLine n xs
 
-def main : IO Unit := Proto.runState (St.init, Spec.SSt.init) handle
+structure DS where
+  st : St
+  sst : Spec.SSt
+  inj : Inj
+
+def DS.init : DS := ⟨St.init, Spec.SSt.init, Inj.none⟩
+
+/-- `failat k` holds for the next line only, `failsize n` until `failsize off` / `reset` -/
+def handle (s : DS) (toks : List String) : DS × String :=
+  let after : DS := { s with inj := ⟨none, s.inj.failSize⟩ }
+  match parseCmd toks with
+  | none => (after, "bad-op")
+  | some .reset => (DS.init, "reset")
+  | some (.failAt k) => ({ s with inj := ⟨some k, s.inj.failSize⟩ }, "ok")
+  | some (.failSize n) => ({ s with inj := ⟨none, n⟩ }, "ok")
+  | some .endHist =>
+    match finish s.st NV NB with
+    | .ok h => (DS.init, s!"end live={h.liveCount} alloc=ok")
+    | .error f => (DS.init, "end fault:" ++ f.name)
+  | some (.op o) => let (st', sst', line) := runOp s.inj s.st s.sst o; ({ after with st := st', sst := sst' }, line)
+  | some (.cmp r t) => (after, cmpLine s.st r t)
+  | some .dump => (after, dumpLine s.st)
+  | some (.obs r) => (after, obsLine s.st r)
+  | some (.bobs b) => (after, bobsLine s.st b)
+  | some (.dynArr n xs) => (after, dynArrLineF s.inj n xs)
+  | some (.readChars n xs) => (after, readCharsLine n xs)     -- io::buffer uses std::allocator: outside the failure schedule
+
+def main : IO Unit := Proto.runState DS.init handle
 
 end Fcppt.C07.Drv
